@@ -14,6 +14,9 @@ Oracle (exact integer ticks of 1/16 s; intervals are k/8 s <= 64 s):
   * stop() or a failure (raise / failed Deferred) fires start()'s Deferred exactly once -- with the
     LoopingCall, or with a Failure wrapping the very exception instance -- by the end of the harness
     operation that completes it, never before; no call happens afterwards.
+Blocking: some calls take time themselves (the clock advances while the function runs, possibly across
+boundaries): completion is the time after blocking, and the boundaries that passed meanwhile are counted
+at the next call (count sums are judged at call *start* times).
 Restart: start() is called again after the loop ended (at top level, from a callback of the Deferred
 the previous start() returned, and -- with stop() -- from inside the looped function, now=False): every
 clause applies afresh to the new run (its own start time, interval, now flag, count sum), and the
@@ -40,7 +43,7 @@ SHARDS = {"quick": 4, "thorough": 16}
 FLOORS = {"calls": 5000, "cadence_checks": 3000, "count_sum_checks": 1000, "counts_gt_1": 200, "deferred_awaited": 500,
           "final_by_stop": 300, "final_by_failure": 300, "stop_inside_call": 50, "stop_while_outstanding": 50,
           "resets": 100, "post_final_advances": 500, "exact_boundary_advances": 200,
-          "restarts_at_top_level": 200, "restarts_from_deferred_callback": 200, "restarts_inside_call": 10}
+          "restarts_at_top_level": 200, "restarts_from_deferred_callback": 200, "restarts_inside_call": 10, "blocking_calls": 500}
 READY = True
 U = 16
 MAX_CALLS = 300  # per case; legitimate cases make at most one call per advance (< 80)
@@ -72,6 +75,9 @@ def gen_case(rng):
             b = ["dnow", ok]
         else:
             b = ["ret"]
+        if b[0] in ("ret", "raise") and rng.random() < 0.08:
+            # the function itself takes time: the clock moves on while it runs (it "blocks", possibly across boundaries)
+            b.append(["block", rng.choice([1, iv // 2 or 1, iv, iv + 1, 2 * iv + rng.randrange(iv), rng.randrange(1, 5 * iv)])])
         if rng.random() < 0.03:
             b.append("stop")
             if rng.random() < 0.35 and (b[0] == "ret" or (b[0] == "dnow" and b[1])):
@@ -192,6 +198,12 @@ class Monitor:
         if self.bad:
             raise Boom("abort")  # a failing function ends the loop: bounds a broken implementation that re-fires forever
         self.expected_B = None
+        for x in beh[1:]:
+            if isinstance(x, list) and x[0] == "block" and not self.bad:
+                self.stat("blocking_calls")
+                self.events.append(("blocks", idx, x[1]))
+                self.now += x[1]
+                self.clock.advance(x[1] / U)  # completion time of this call is the time after blocking
         if "stop" in beh[1:] and self.running and not self.bad:
             self.stat("stop_inside_call")
             self.events.append(("stop-inside", idx))
